@@ -8,6 +8,7 @@ import (
 	"os/exec"
 	"path/filepath"
 	"runtime"
+	"runtime/debug"
 	"runtime/pprof"
 	"sort"
 	"strconv"
@@ -25,6 +26,7 @@ func usage() {
 }
 
 func main() {
+	debug.SetGCPercent(400)
 	if len(os.Args) < 2 {
 		usage()
 	}
@@ -102,6 +104,22 @@ func cmdRun(args []string) int {
 	e := newExplorer(P, fn, cfg)
 	e.Run()
 	e.summary(os.Stdout, time.Since(t0))
+	if branchStats != nil {
+		type kv struct {
+			k string
+			v int
+		}
+		var kvs []kv
+		for k, v := range branchStats {
+			kvs = append(kvs, kv{k, v})
+		}
+		sort.Slice(kvs, func(a, b int) bool { return kvs[a].v > kvs[b].v })
+		for k, x := range kvs {
+			if k < 40 {
+				fmt.Printf("  %6d queries at %s\n", x.v, x.k)
+			}
+		}
+	}
 	lastProgram = P
 	for k := range e.violations {
 		ok, path, detail := confirmViolation(&e.violations[k], "DEV", args[0], k)
